@@ -41,7 +41,7 @@ for name, (rel, edits) in EDITS.items():
         c = subprocess.run('cargo check --offline -q 2>&1 | tail -3', shell=True, cwd=tmp, capture_output=True, text=True, env=dict(os.environ, CARGO_NET_OFFLINE='true', CARGO_TARGET_DIR=os.path.join(tmp, 'tgt')))
         compiles = 'error' not in c.stdout
         def one(pr):
-            env = dict(os.environ, CALLOOP_REPO=tmp, VERIF_EVIDENCE_DIR=os.path.join(tmp, 'ev'), VERIF_BUILD_DIR=os.path.join(tmp, 'b'), VERIF_REPLAY_DIR=os.path.join(tmp, 'r'), VERIF_NO_SELFTEST='1', VERIF_JOBS='4')
+            env = dict(os.environ, CALLOOP_REPO=tmp, VERIF_EVIDENCE_DIR=os.path.join(tmp, 'ev'), VERIF_BUILD_DIR=os.path.join(tmp, 'b'), VERIF_REPLAY_DIR=os.path.join(tmp, 'r'), VERIF_NO_SELFTEST='1', VERIF_JOBS='4', VERIF_DIAG='1')
             o = subprocess.run([os.path.join(ROOT, 'check'), pr], capture_output=True, text=True, env=env)
             v = [re.sub(r'replay=\S+ ', '', l)[:260] for l in o.stdout.splitlines() if l.startswith('VIOLATION')]
             u = [l[:200] for l in o.stdout.splitlines() if l.startswith('UNDECIDED') and 'tier=' not in l]
